@@ -91,11 +91,17 @@ def check(src, rep):
         if r[0] == "call" and r[1] == "bytes" and len(r[2]) == 1:
             r = r[2][0]
         okp = r == ("slice", F(RO), F(DATA), F(END))
+    _reader_clause(rep, src)
     if okp:
         rep.ok("R6", "payload", "readout[first LF + 1 : position of '!'] - exactly the bytes between the identification line and '!'")
     else:
         rep.violation("R6", f"{MOD}.DataReadout.payload", "payload-slice", "payload is not the bytes between the identification line and '!'", file, fn.node.lineno,
                       witness=show_sv(ps[0].ret)[:100] if ps and ps[0].ret else None)
+
+
+def _reader_clause(rep, src):
+    from sa.cross import include
+    include(rep, src, "C05", {"R2", "R3"}, "R7", "readouts obtained from the reader under every splitting are built from exactly the transmitted lines")
 
 
 def _mentions(sv, pred):
